@@ -156,11 +156,18 @@ func e1(maxN int) {
 
 // ---------------------------------------------------------------- world for E2/E3
 
-type scripted struct{ fail map[string]bool }
+type scripted struct {
+	fail   map[string]bool
+	onFail func() // called when a probe fails (roundDeadline: the round's context ends there)
+}
 
 func (s *scripted) Do(req *http.Request) (*http.Response, error) {
 	vclock.Advance(5 * time.Millisecond)
 	if s.fail[req.URL.Host] {
+		if s.onFail != nil {
+			s.onFail()
+			return nil, context.DeadlineExceeded
+		}
 		return &http.Response{StatusCode: 500, Body: io.NopCloser(strings.NewReader("x")), Header: http.Header{}, Request: req}, nil
 	}
 	return &http.Response{StatusCode: 200, Body: io.NopCloser(strings.NewReader("ok")), Header: http.Header{}, Request: req}, nil
@@ -227,6 +234,8 @@ type world struct {
 	sel    domain.EndpointSelector
 	log    []logEntry
 	names  []string
+	// clientGone: the request's context ends at the moment an attempt fails (the client hung up)
+	clientGone bool
 }
 
 func newWorld(n int, strat string) *world {
@@ -265,6 +274,20 @@ func (w *world) round(failMask int) {
 	w.hc.VerifPeriodicRound(ctx)
 }
 
+// roundDeadline: a periodic round whose context is over by the time the probes of the endpoints in failMask have
+// failed (they hung until the round's budget ran out); the results are written under that finished context
+func (w *world) roundDeadline(failMask int) {
+	vclock.Advance(61 * time.Second)
+	for i := range w.names {
+		w.client.fail[host(i)] = failMask&(1<<uint(i)) != 0
+	}
+	rctx, cancel := context.WithCancel(ctx)
+	w.client.onFail = cancel
+	w.hc.VerifRoundWithContext(rctx)
+	w.client.onFail = nil
+	cancel()
+}
+
 // forced: like RunHealthCheck(force): every endpoint is checked now, without waiting for its next check time
 func (w *world) forced(failMask int) {
 	vclock.Advance(100 * time.Millisecond)
@@ -289,9 +312,14 @@ func (w *world) request(refuseMask int, out *[]dispatch) error {
 	// the repository ranges over a Go map: sort so that runs are reproducible
 	sort.Slice(healthy, func(i, j int) bool { return healthy[i].Name < healthy[j].Name })
 	req, _ := http.NewRequest("POST", "http://olla/x", strings.NewReader("{}"))
-	return w.retry.ExecuteWithRetry(ctx, &nullWriter{http.Header{}}, req, healthy, w.sel, &ports.RequestStats{}, func(c context.Context, rw http.ResponseWriter, r *http.Request, e *domain.Endpoint, s *ports.RequestStats) error {
+	rctx, cancel := context.WithCancel(ctx)
+	defer cancel()
+	return w.retry.ExecuteWithRetry(rctx, &nullWriter{http.Header{}}, req, healthy, w.sel, &ports.RequestStats{}, func(c context.Context, rw http.ResponseWriter, r *http.Request, e *domain.Endpoint, s *ports.RequestStats) error {
 		*out = append(*out, dispatch{e.Name, vsched.Step(), g, g1})
 		if refuseMask&(1<<uint(e.Name[0]-'A')) != 0 {
+			if w.clientGone {
+				cancel()
+			}
 			return &net.OpError{Op: "dial", Net: "tcp", Err: syscall.ECONNREFUSED}
 		}
 		return nil
@@ -307,10 +335,18 @@ type ev struct {
 
 func (e ev) String() string { return fmt.Sprintf("%s(%b)", e.kind, e.mask) }
 
-func e2(n, depth int, strat string) {
+func e2(n, depth int, strat string, extended bool) {
 	var alpha []ev
 	for m := 0; m < 1<<uint(n); m++ {
 		alpha = append(alpha, ev{"round-fail", m}, ev{"request-refuse", m}, ev{"forced-round-fail", m})
+		if extended && m != 0 {
+			// status writes issued under a context that is already over: the client went away while its attempt was
+			// failing; the periodic round's budget ran out while its probe hung
+			alpha = append(alpha, ev{"request-refuse-client-gone", m})
+			if n == 1 {
+				alpha = append(alpha, ev{"round-deadline", m})
+			}
+		}
 	}
 	idx := 0
 	var gen func(h []ev)
@@ -318,7 +354,7 @@ func e2(n, depth int, strat string) {
 		if report.Expired() {
 			return
 		}
-		if len(h) > 0 && h[len(h)-1].kind == "request-refuse" {
+		if len(h) > 0 && strings.HasPrefix(h[len(h)-1].kind, "request-refuse") {
 			idx++
 			if report.Mine(idx) {
 				runE2(n, strat, h)
@@ -352,8 +388,15 @@ func runE2(n int, strat string, h []ev) {
 				for i, nm := range w.names {
 					inRotation[nm] = e.mask&(1<<uint(i)) == 0
 				}
-			case "request-refuse":
+			case "round-deadline":
+				w.roundDeadline(e.mask)
+				vsched.WaitOthers()
+				for i, nm := range w.names {
+					inRotation[nm] = e.mask&(1<<uint(i)) == 0
+				}
+			case "request-refuse", "request-refuse-client-gone":
 				var ds []dispatch
+				w.clientGone = e.kind == "request-refuse-client-gone"
 				w.request(e.mask, &ds)
 				vsched.WaitOthers()
 				tried := map[string]bool{}
@@ -524,8 +567,10 @@ func main() {
 		d2, d3 = 6, 4
 	}
 	for _, strat := range []string{"priority", "round-robin", "least-connections"} {
-		e2(2, d2, strat)
-		e2(3, d3, strat)
+		e2(2, d2, strat, false)
+		e2(3, d3, strat, false)
+		e2(2, d2-1, strat, true)
+		e2(1, d2, strat, true)
 	}
 	if report.Expired() {
 		res.NotExhaustive("E2: time budget")
